@@ -1,11 +1,12 @@
 """C17 - see properties.jsonl; DESIGN.md section 5."""
 from ._generic import run_property
 
-EXPLANATION = 'Bounded stand-in: metadata-only answers (columns, dtypes, categories, cats, index, counts) vs the frame actually read, over read-option tuples and own/foreign/partitioned files.'
+EXPLANATION = 'Bounded / enumerated (nothing here is a deductive proof). Finite table lemma executed on the real code: for every (physical type x converted type x logical type) combination the format allows for a flat leaf, the dtype typemap()/ParquetFile._dtypes announces is compatible with what convert(read_plain(...)) returns (40 combinations, complete for that finite table; backend = execution, not SMT). Plus: metadata-only answers (columns, dtypes, categories, cats, index, counts) vs the frame actually read, over read-option tuples and own/foreign/partitioned files.'
 
 
 def p_parts():
-    return []
+    from ._typemap import p_typemap
+    return [p_typemap]
 
 
 def run(ctx):
